@@ -12,6 +12,7 @@ import (
 	"github.com/tokenized/pkg/wire"
 	"github.com/tokenized/spynode/internal/handlers"
 	"github.com/tokenized/spynode/internal/platform/config"
+	handlersstorage "github.com/tokenized/spynode/internal/storage"
 	"github.com/tokenized/spynode/pkg/client"
 )
 
@@ -204,4 +205,14 @@ func vkDrainTxs(ctx context.Context, k *vkNode) error {
 		}
 	}
 	return nil
+}
+
+
+// vkFetchState reads the stored state of a transaction.
+func vkFetchState(ctx context.Context, node *Node, txid bitcoin.Hash32) (client.TxState, error) {
+	tx, err := handlersstorage.FetchTxState(ctx, node.store, txid)
+	if err != nil {
+		return client.TxState{}, err
+	}
+	return tx.State, nil
 }
